@@ -43,7 +43,9 @@ class SubtreesTrie(Generic[T]):
         if root_path is not None:
             self.root_path: str = path_to_trie_key(root_path)
         else:
-            self.root_path: str = ""
+            # Key of the empty path, s.t. `len(self.root_path) - 1` is the length of
+            # the root path also for the view on the whole trie.
+            self.root_path: str = path_to_trie_key(())
 
     def __setitem__(self, key: Path, value: Tuple[Path, T]):
         assert is_path(key)
